@@ -677,6 +677,36 @@ def _enc_table_idiom(prog, fe, ea):
 
 
 
+def _bit_cases(ea, b, bit):
+    """the or-ed bit with the block whose guards select it: the statement's own block, or - when the bit is the Ok payload of a helper's result
+    joined over the helper's arms (`mask_bit(sig).map(|bit| mask | bit)`) - one case per arm"""
+    x, path = bit, []
+    while x.op in ("cast", "field", "downcast"):
+        if x.op == "cast":
+            x = x.args[1]
+        else:
+            path.append(x)
+            x = x.args[0]
+    if x.op != "phi":
+        return [(b, bit)]
+    out = []
+    for pb, w in ea.phi_operands(x):
+        # follow .Ok.0 / .Some.0 into the aggregate built in that arm
+        for sel in reversed(path):
+            if sel.op == "downcast":
+                if not (w.op == "agg" and w.args[1] == sel.args[1]):
+                    w = None
+                    break
+            elif sel.op == "field":
+                if not (w.op == "agg" and sel.args[1] < len(w.args[3])):
+                    w = None
+                    break
+                w = w.args[3][sel.args[1]]
+        if w is not None:
+            out.append((pb, w))
+    return out
+
+
 def rule_1230(prog, res):
     """Q-1230: mask bits <-> signals, fixed order, capacity 4."""
     mod = "df::dfs::df_msg1230_biases"
@@ -694,15 +724,15 @@ def rule_1230(prog, res):
         for i, s in enumerate(fe.blocks[b]["stmts"]):
             if s["k"] == "assign" and s["rv"]["k"] == "binop" and s["rv"]["op"] == "BitOr":
                 v = ea.rv_term(s["rv"], (b, i))
-                bit = v.args[2]
-                if bit.op == "bin" and bit.args[0] == "Shl" and is_const(bit.args[1]) and is_const(bit.args[2]):
+                for gb, bit in _bit_cases(ea, b, v.args[2]):
+                  if bit.op == "bin" and bit.args[0] == "Shl" and is_const(bit.args[1]) and is_const(bit.args[2]):
                     bitv = const_val(bit.args[1]) << const_val(bit.args[2])
-                elif is_const(bit):
+                  elif is_const(bit):
                     bitv = const_val(bit)
-                else:
+                  else:
                     continue
-                band = attr = None
-                for gd in ea.guards(b):
+                  band = attr = None
+                  for gd in ea.guards(gb):
                     t = gd[0]
                     if t.op == "call" and t.args[0].endswith("::SigId::band") and gd[1] == "eq":
                         band = gd[2]
@@ -717,8 +747,11 @@ def rule_1230(prog, res):
                                 band = gd[2]
                             if comp.op == "call" and comp.args[0].endswith("::SigId::attribute"):
                                 attr = gd[2]
-                if band is not None and attr is not None:
-                    enc[(band, attr)] = bitv
+                  if band is not None and attr is not None:
+                    if (band, attr) in enc and enc[(band, attr)] != bitv:
+                        enc[(band, attr)] = None          # two different bits for one signal: no table
+                    else:
+                        enc[(band, attr)] = bitv
     if not enc:
         enc = _enc_table_idiom(prog, fe, ea)
     da = FA(fd, prog)
